@@ -974,6 +974,17 @@ func (k *knownSet) describe(key string) string {
 
 // ---- evidence ------------------------------------------------------------------------
 
+// subRules: the drawing rules of the sub-checks whose runs are merged into p's evidence.
+func subRules(p *Prop) string {
+	r := ""
+	for _, id := range p.Also {
+		if sub := propByID(id); sub != nil && !strings.Contains(p.Rule, sub.Rule) {
+			r += " Sub-check " + sub.Rule
+		}
+	}
+	return r
+}
+
 func writeEvidence(p *Prop, h *Harness, bi *buildInfo, tier string, seed uint64, a *agg, wall float64, viol *RunResult, replay string) {
 	var warnings []string
 	if tier == "thorough" {
@@ -1008,7 +1019,7 @@ func writeEvidence(p *Prop, h *Harness, bi *buildInfo, tier string, seed uint64,
 		"coverage": map[string]any{
 			"evaluations":                    a.runs,
 			"distinct_nontrivial":            len(a.nontriv),
-			"rule":                           "one evaluation = one simulated run of the real code under the seeded scheduler (workload, configuration knobs, fault plan and every scheduling decision drawn from VERIF_SEED and the run index). distinct = distinct vector of recorded choices (workload+faults+schedule); non-trivial = at least one fault fired or at least one scheduling decision had more than one candidate. " + p.Rule,
+			"rule":                           "one evaluation = one simulated run of the real code under the seeded scheduler (workload, configuration knobs, fault plan and every scheduling decision drawn from VERIF_SEED and the run index). distinct = distinct vector of recorded choices (workload+faults+schedule); non-trivial = at least one fault fired or at least one scheduling decision had more than one candidate. " + p.Rule + subRules(p),
 			"samples":                        samples,
 			"runs_per_hour":                  float64(a.runs) / wall * 3600,
 			"run_index_range":                []int{0, a.runs},
